@@ -175,6 +175,7 @@ func c01Script(sc *L1Scenario, tier int) {
 	for _, b := range bs {
 		sc.fundEscrow(b, int64(500+100*int(b)))
 	}
+	sc.fundBig(bs[0])
 	escAddr := func(b uint64) string { return sdk.AccAddress(e.AddrOf(EscrowBase + b)).String() }
 	// a tree for bs[0] with ordinary leaves, a leaf paying the escrow of bs[1] and one paying its own escrow
 	var ws []Withdrawal
@@ -200,13 +201,34 @@ func c01Script(sc *L1Scenario, tier int) {
 	p00, ok00 := sc.ProposeTree(bs[0], t0) // bridge-0 tree on bridge 0
 	p01, ok01 := sc.ProposeTree(bs[1], t0) // the same root on bridge 1
 	p11, ok11 := sc.ProposeTree(bs[1], t1) // the twin on bridge 1
+	for _, b := range bs {
+		sc.NextWSeq[b] = uint64(len(ws) + 1) // sequences of later random trees do not reuse the scripted ones
+	}
+	// every bridge gets two more (not yet final) outputs; then the last output of a LOWER-id bridge is
+	// deleted while the higher-id bridges hold outputs
+	extraOut := func(b uint64) { sc.ProposeTree(b, sc.MakeTree(b, 1+r.Intn(2))) }
+	delLast := func(b uint64) {
+		next, _ := e.K.GetNextOutputIndex(e.Ctx, b)
+		_, chal, _, ok := sc.Config(b)
+		if !ok || next < 2 {
+			return
+		}
+		sc.reg(chal)
+		sc.do(L1Op{Kind: "delete", Sender: chal, Bridge: b, Idx: next - 1})
+	}
+	for _, b := range bs {
+		extraOut(b)
+		extraOut(b)
+	}
+	delLast(bs[0])
+	delLast(bs[1])
 	steps := 30
 	if tier == 1 {
 		steps = 60
 	}
 	for i := 0; i < steps; i++ {
 		sub := e.User(uint64(1 + r.Intn(7))).Str
-		switch r.Weighted([]int{14, 22, 18, 12, 14, 12, 8}) {
+		switch r.Weighted([]int{14, 22, 18, 12, 14, 12, 8, 10, 8, 10}) {
 		case 0:
 			sc.Advance([]int64{period, period + sec, sec}[r.Intn(3)])
 		case 1: // honest claim on bridge 0
@@ -232,16 +254,28 @@ func c01Script(sc *L1Scenario, tier int) {
 			sc.do(L1Op{Kind: "send", FromID: uint64(1 + r.Intn(7)), ToID: EscrowBase + b, Denom: sc.Denoms[r.Intn(len(sc.Denoms))], Amt: big.NewInt(int64(1 + r.Intn(90)))})
 		case 6: // deposit into a random bridge (existing or not)
 			sc.DepositOp(sub, uint64(1+r.Intn(4)), "l2recipient", sc.Denoms[r.Intn(len(sc.Denoms))], int64(r.Intn(120)), nil)
+		case 7: // a new output on some bridge, then the last output of a lower-id bridge is deleted
+			extraOut(bs[r.Intn(len(bs))])
+			delLast(bs[r.Intn(len(bs)-1)])
+		case 8: // a paid claim with the recipient in upper case / a claim with amount + k*2^64
+			sc.variantStep()
+		case 9: // a valid claim on the richly funded bridge with amount + k*2^64 (same low 64 bits)
+			if ok00 {
+				op := sc.Claim(p00, r.Intn(len(ws)), sub)
+				op.Amt = new(big.Int).Add(op.Amt, new(big.Int).Mul(two64, big.NewInt(int64(1+r.Intn(2)))))
+				sc.Case.Do(op)
+			}
 		}
 	}
 }
 
 func genC01(seed uint64, tier, outdir string) *Report {
 	w := DefaultL1Weights
-	w.Create, w.Deposit, w.Propose, w.Claim, w.Send, w.Params = 8, 24, 14, 26, 10, 4
+	w.Create, w.Deposit, w.Propose, w.Delete, w.Claim, w.Send, w.Params = 8, 22, 16, 12, 26, 10, 4
 	return runMoneyStream(MoneyStream{Prop: "C01", Weights: w, NRandom: [2]int{18, 200}, Len: [2]int{60, 140},
 		Scripts: []func(*L1Scenario, int){c01Script}, NScript: [2]int{18, 200},
-		Monitors: []L1Monitor{c01Monitor},
-		Rule:     "a case is one multi-bridge L1 history on a fresh instance (scripted cross-bridge replay scenario plus random tail, or fully random); distinct by hash of the op list; non-trivial = at least one finalization accepted and at least one rejected"},
+		Monitors: []L1Monitor{c01Monitor, provenLeafMonitor("C01")},
+		Prep:     whalePrep, Spice: (*L1Scenario).variantStep, SpicePct: 10,
+		Rule: "a case is one multi-bridge L1 history on a fresh instance (scripted cross-bridge replay scenario plus random tail, or fully random); distinct by hash of the op list; non-trivial = at least one finalization accepted and at least one rejected"},
 		seed, tier, outdir)
 }
